@@ -14,6 +14,12 @@ import AcbModel.Lemmas.FxExamples
 namespace Acb
 open Fx
 
+/-- The write procedure found in the source is the one modelled by `writeProc`: the translator only
+    produces these constants when `write_rates` creates `rates-Y.csv.tmp`, flushes, calls `sync_all`
+    and then renames the temp file over `rates-Y.csv`, in this order. -/
+theorem C14_write_procedure_as_modelled :
+    Gen.fxWriteProcSteps = "open_rates_csv_tmp_file_write" ∧ Gen.fxCacheTmpSuffix = ".tmp" := ⟨rfl, rfl⟩
+
 /-- **C14 (the cache file reads back what was written).** -/
 theorem C14_cachefile_roundtrip (dt : DateText) (hdt : dt.OK) (rows : List TextRow)
     (hc : ∀ r ∈ rows, r.Clean) :
